@@ -26,7 +26,7 @@ ASSUMPTIONS = ["datetime.time inputs (combined with today's date) are excluded",
 
 def plan(tier, seed):
     k = 16 if tier == "quick" else 64
-    return [{"kind": "hist", "sub": i, "n": 3 if tier == "quick" else 24} for i in range(k)]
+    return [{"kind": "hist", "sub": i, "n": 6 if tier == "quick" else 40} for i in range(k)]
 
 
 def floors(tier):
